@@ -25,6 +25,13 @@ CLAIMED = {
              "counts symbolic; parse(write h) = h. Tied to /repo by an exhaustive correspondence run of the same finite domains.",
         technique="Coq proof (vm_compute sweeps lifted to forall + algebraic lemmas on big-endian fields) + exhaustive correspondence",
         ref="DESIGN.md section 6, C08"),
+    "C06": dict(
+        text="Kernel-checked theorems about the transliterated Name::parse loop for every buffer and offset: never panics, "
+             "terminates (closed-form fuel never exhausted, by a measure), sound and complete w.r.t. an inductive RFC 1035 4.1.4 "
+             "decoding relation (labels 1..63, expansion <= 255, in-place end after the first pointer), and every input without "
+             "a derivation is an Err. Tied to /repo by bounded-exhaustive + structured NAME cases, with a python RFC decoder as oracle.",
+        technique="Coq proof (induction on fuel / on the RFC derivation) + bounded-exhaustive model/implementation correspondence",
+        ref="DESIGN.md section 6, C06"),
 }
 
 PENDING_REASON = "not claimed yet: model, theorems and correspondence slice for this property are still being built (see DESIGN.md section 10)"
